@@ -1067,6 +1067,16 @@ func (vm *VirtualMachine) reloadCode(main *compiler.Code) *code {
 	delete(vm.loadedCode, main)
 	newWrappedMain := vm.loadCode(main)
 	copy(newWrappedMain.Globals, oldWrappedMain.Globals)
+	// The functions defined by earlier inputs were loaded with the old globals
+	// array. Point them at the new one, or they keep reading and writing
+	// variables that the main code no longer uses.
+	vm.cloneMutex.Lock()
+	for cc, c := range vm.loadedCode {
+		if cc != main && cc.Root() == main {
+			c.Globals = newWrappedMain.Globals
+		}
+	}
+	vm.cloneMutex.Unlock()
 	return newWrappedMain
 }
 
